@@ -198,7 +198,8 @@ HEADS = {
     'ApplyComparisonOp': 1, 'MakeArray': 1, 'ArrayRef': 1, 'ArraySlice': 1, 'ArrayLen': 0, 'StreamRange': 2,
     'StreamIota': 1, 'ToSet': 0, 'ToDict': 0, 'ToArray': 0, 'CastToArray': 0, 'ToStream': 1, 'StreamMap': 1,
     'StreamFilter': 1, 'StreamFlatMap': 1, 'StreamFold': 2, 'StreamScan': 2, 'StreamAgg': 1, 'StreamAggScan': 1,
-    'ArraySort': 2, 'AggFilter': 1, 'AggExplode': 2, 'AggGroupBy': 1, 'SelectFields': 1, 'GetField': 1, 'MakeTuple': 1,
+    'ArraySort': 2, 'AggFilter': 1, 'AggExplode': 2, 'AggGroupBy': 1, 'AggArrayPerElement': 4, 'SelectFields': 1,
+    'GetField': 1, 'MakeTuple': 1,
     'GetTupleElement': 1, 'Apply': 4, 'ApplySeeded': 4, 'Literal': 2, 'EncodedLiteral': 2, 'Die': 2, 'GroupByKey': 0,
     'LowerBoundOnOrderedCollection': 1, 'StreamTake': 0, 'StreamZip': 3,
     'TableAggregate': 0, 'TableCount': 0, 'TableGetGlobals': 0, 'TableCollect': 0, 'MatrixAggregate': 0,
@@ -410,6 +411,15 @@ def child_env(node, i, env: Env, val=_binder_id, rel=None) -> Env:
         if i == 0:
             return env.promote_s() if scan else env.promote_a()
         return env.bind_s(B([str(h[0])])) if scan else env.bind_a(B([str(h[0])]))
+    if k == 'AggArrayPerElement':      # head: elementName indexName isScan hasKnownLength; children: a, aggBody[, length]
+        scan = str(h[2]) == 'True'
+        if i == 0:
+            return env.promote_s() if scan else env.promote_a()
+        if i == 1:      # eval binds the index; the agg (scan) environment binds element and index
+            both = B([str(h[0]), str(h[1])])
+            e2 = env.bind_e(B([str(h[1])]))
+            return e2.bind_s(both) if scan else e2.bind_a(both)
+        return env
     if k in ('TableAggregate', 'MatrixAggregate'):
         if i == 0:
             return Env({}, None, None)
